@@ -6,16 +6,19 @@ from vlib.core import ROOT, hx, run_lines
 
 MODULES = ["TLVerif.Props.C04"]
 THEOREMS = ["TLVerif.Props.C04." + t for t in [
-    "read_tl1_sets_tl2masks", "prim_tl1_tl2_tl1", "prim_negzero_lost", "tl1_tl2_tl1_partial", "tl1_tl2_tl1_fails_at", "conversion_fails"]]
-
-KNOWN_KEY = "codec.x2 cases 33 cases.testDictAny 1 db4d2b2501000000000000000000008007000000"
+    "read_tl1_sets_tl2masks", "prim_tl1_tl2_tl1", "float_empty_iff_zero_pattern", "prim_negzero_preserved", "tl1_tl2_tl1",
+    "negzero_good", "tl1_tl2_tl1_negzero_at"]]
 
 # thorough tier (goldmaster.tl): WriteJSON of an object that ReadTL2 decoded from an empty body dereferences the nil pointer of a
 # non-optional recursive field (`hren next:(Maybe hren) = Hren;`)
 HREN_KEY = "codec.x2 gold 80 hren 0 7b0a9327"
 
-# deterministic witnesses of the known finding (L2): a non-optional float holding -0.0 is "empty" for the TL2 writer
-NEGZERO = [("cases.testDictAny", 1, "db4d2b25" + "01000000" + "0000000000000080" + "07000000")]
+# Lead L2 (repaired in the generator: floats are tested with `(x != 0 || 1/x < 0)`): a non-optional float holding -0.0 used to be
+# "empty" for the TL2 writer and came back as +0.0.  The former witness lines are fixed inputs that MUST pass; a -0.0 lost again is
+# a violation (the failing line is the replay; the model-evaluated guard `noNegZero` only annotates what was hit).
+NEGZERO = [("cases.testDictAny", 1, "db4d2b25" + "01000000" + "0000000000000080" + "07000000"),
+           ("cases.testDictAny", 1, "db4d2b25" + "02000000" + "0000000000000080" + "00000000" + "0000000000000000" + "01000000"),
+           ("cases.testAllDicts", 1, "a6794bec" + "00000000" + "00000000" + "01000000" + "0000000000000080" + "02000000")]
 
 
 def corpus(c):
@@ -106,8 +109,8 @@ def run(c):
                     t2.unhex(o["j1"])[:120], t2.unhex(o["j2"])[:120])))
             elif o["w1a"] != o["w1b"]:
                 fails.append((x2, "TL1 -> TL2 -> TL1 changes the TL1 bytes (in-process chain)"))
-        # classify failures by the decidable guard of the partial theorem, evaluated by the model on the decoded value:
-        # guard false = the value holds a float -0.0 where the TL2 writer tests `x != 0` (known finding, keyed by its witness)
+        # annotate failures with the model-evaluated predicate `noNegZero` on the decoded value: "guard 0" = the value holds a float
+        # -0.0 in a position where the TL2 writer tests emptiness, i.e. the repaired defect L2 is back; every failure is a violation
         gl = sorted(set("codec.g4 " + l.split(" ", 1)[1] for l, _ in fails))
         guard = dict(zip(gl, run_lines(model, gl, prefix=pre)))
         for l, what in fails:
@@ -115,8 +118,8 @@ def run(c):
             c.count("c04-fail:" + str(g))
             if "panics in the chain" in what and l.split(" ")[1] == "gold" and l.split(" ")[3] == "hren":
                 c.oracle_fail(HREN_KEY, what, l)
-            elif g == "guard 0" and l.split(" ")[1] in ("cases", "casesns", "gold"):
-                c.oracle_fail(KNOWN_KEY, what + " [float -0.0 in an empty-test position]", l)
+            elif g == "guard 0":
+                c.oracle_fail(l, what + " [float -0.0 in an empty-test position: is the float emptiness test `x != 0` again?]", l)
             else:
                 c.oracle_fail(l, what, l)
     c.extra["rule"] = ("valid type-directed TL1 encodings (bare and boxed) and FillRandom values of every TL1-origin TL2-enabled factory item; "
